@@ -13,7 +13,7 @@ K (model vs implementation)
        Since the `fix:` commit the decision reads the IPC sink's `tell()`, so compressed turns are predicted exactly too.
     B  the client's observation (logs, data batches, terminal event) vs `C11.iterate` / `Engine.Sem`.
     C  resume: the continuation for token k served by a second worker (other cap / codec, warm or cold cache), through
-       `_HttpProxy.resume_stream`, `seek_to_token` + iteration, `seek_to_token` + `next_with_token` — vs `C11.resume`.
+       `_HttpProxy.resume_stream` (+ iteration / + `next_with_token`), `seek_to_token` + iteration, `seek_to_token` + `next_with_token` — vs `C11.resume`.
     D  `_encode_resume_token` / `_decode_resume_token` vs `C11.token_enc` / `C11.token_dec` (valid and malformed blobs);
        the extracted `should_continue` expression evaluated in Python vs `Gen.C11.shouldContinue` on a grid.
     E  producers that READ THEIR TICK (`TickState`): a step may have a variant played when the tick of that `process()` call
@@ -70,6 +70,8 @@ OBLIGATIONS = [
     "VgiVerif.C11.C11_resume_reactive",
     "VgiVerif.C11.C11_iterate_reactive",
     "VgiVerif.C11.C11_chunking_reactive",
+    "VgiVerif.C11.nwt_end_test",
+    "VgiVerif.C11.C11_nwt_one_step",
     "VgiVerif.C11.C11_resume_token_rt",
     "VgiVerif.C11.C11_resume_token_encode_total",
 ]
@@ -83,7 +85,7 @@ TRUSTED = [
 ]
 PARTIAL = ["byte-level Arrow serialisation and the codecs live in pyarrow; the model takes their sizes as inputs"]
 RULE = (
-    "random producers (0-8 steps; rows 1-1500; 0-2 logs before / after the batch; endings emit / finish / emit+finish / "
+    "random producers (0-8 steps; rows 0-1500 incl. zero-row data batches, bare or with metadata only; 0-2 logs before / after the batch; endings emit / finish / emit+finish / "
     "raise / nothing; header on/off; 0-2 init logs; half of them READ THEIR TICK: per-position alternative steps played when "
     "the tick carries the application key app.hint / any metadata, with init requests carrying application metadata) x caps {None, 1, exact cumulative sizes -1/0/+1 (straddling), a "
     "random mid value, huge} x codecs {identity, zstd, gzip} x cache {warm 4096, cold 0}; resume at every token on a "
@@ -339,7 +341,7 @@ def cut(plain: bytes) -> list[dict[str, Any]]:
                 items.append(("err" if mdd[LOG_LEVEL_KEY] == b"EXCEPTION" else "log", sizes[i], None))
             else:
                 x = b.column("x").to_pylist() if "x" in b.schema.names else []
-                items.append(("data" if "x" in b.schema.names else "hdr", sizes[i], x[0] if x else None))
+                items.append(("data" if "x" in b.schema.names else "hdr", sizes[i], x[0] if x else 0))
             i += 1
         streams.append({"schema": schema, "items": items, "framing": (end - start) - schema - sum(sizes)})
     return streams
@@ -362,7 +364,9 @@ def turn_view(resp: dict[str, Any], has_header: bool, first: bool) -> dict[str, 
 
 
 def canon(evs: list[Any]) -> list[Any]:
-    return [x for x in (c01.canon_ev(e) for e in evs) if x is not None and x[0] != "header"]
+    out = [x for x in (c01.canon_ev(e) for e in evs) if x is not None and x[0] != "header"]
+    # a zero-row data batch has no column value to show its id: descriptors give such batches id 0
+    return [["data", 0, *x[2:]] if x[0] == "data" and x[1] is None else x for x in out]
 
 
 def iterate_all(w: Worker, name: str) -> tuple[list[Any], list[dict[str, Any]]]:
@@ -414,13 +418,13 @@ def resume(w: Worker, name: str, blob: bytes, mode: str) -> list[Any]:
     w.cur = []
     with w.connect() as proxy:
         try:
-            if mode == "resume_stream":
+            if mode in ("resume_stream", "resume_nwt"):
                 sess = proxy.resume_stream(name, blob)
             else:
                 sess = getattr(proxy, name)(a=1)     # a fresh /init on this worker, then reposition
                 w.cur.clear()
                 sess.seek_to_token(blob)
-            if mode == "seek_nwt":
+            if mode in ("seek_nwt", "resume_nwt"):
                 while True:
                     ab, _tok = sess.next_with_token()
                     if ab is None:
@@ -447,8 +451,11 @@ def gen_producer(rng: Any) -> dict[str, Any]:
     for k in range(n):
         last = k == n - 1
         r = rng.random()
-        rows = rng.choice([1, 1, 2, 7, 60, 200, 200, 1500])
+        rows = rng.choice([0, 0, 1, 1, 2, 7, 60, 200, 200, 1500])
         b = {"id": 10 + k, "rows": rows, "meta": ({"a": "b" * rng.choice([1, 40])} if rng.random() < 0.2 else {})}
+        if rows == 0:
+            # an empty page / a batch that only carries metadata: no column value, so no id (canonical id 0)
+            b = {"id": 0, "rows": 0, "meta": rng.choice([{}, {}, {"bid": str(10 + k)}, {"bid": str(10 + k), "note": "empty page"}])}
         if last and r < 0.25:
             act: Any = "finish"
         elif last and r < 0.45:
@@ -482,7 +489,10 @@ def hinted_variant(rng: Any, st: dict[str, Any]) -> dict[str, Any]:
     if isinstance(act, dict) and ("emit" in act or "emit_finish" in act) and rng.random() < 0.85:
         key = "emit" if "emit" in act else "emit_finish"
         b = dict(act[key])
-        b["id"] = b["id"] + 500
+        if b.get("rows", 1) == 0:
+            b["meta"] = dict(b.get("meta") or {}, hinted="1")
+        else:
+            b["id"] = b["id"] + 500
         return {"logs": list(st.get("logs", [])), "act": {key: b}, "post": list(st.get("post", []))}
     return {"logs": [], "act": "finish", "post": []}
 
@@ -513,6 +523,11 @@ def corpus() -> list[dict[str, Any]]:
         {"name": "p", "kind": "producer", "header": True, "hdr": 1, "init_logs": [L("h")], "init": "ok", "sense": "any",
          "steps": [dict(E({"id": k, "rows": 2}), hinted=(E({"id": 500 + k, "rows": 2}) if k != 3 else {"logs": [], "act": "finish", "post": []}))
                    for k in range(1, 6)]},
+        # empty pages: zero-row data batches, bare and with metadata only, between non-empty ones and at both ends
+        {"name": "p", "kind": "producer", "header": False, "init_logs": [], "init": "ok",
+         "steps": [E({"id": 0, "rows": 0}), E({"id": 1, "rows": 2}), E({"id": 0, "rows": 0, "meta": {"bid": "2"}}), E({"id": 3, "rows": 3}),
+                   {"logs": [L("before empty")], "act": {"emit": {"id": 0, "rows": 0}}, "post": [L("after empty")]},
+                   E({"id": 5, "rows": 1}), {"logs": [], "act": {"emit_finish": {"id": 0, "rows": 0, "meta": {"bid": "6"}}}, "post": []}]},
         # batches larger than the codecs' internal buffers (the flush points of zstd / gzip fall inside a turn)
         {"name": "p", "kind": "producer", "header": False, "init_logs": [L("big")], "init": "ok",
          "steps": [E({"id": 1, "rows": 20000}), E({"id": 2, "rows": 9000}), E({"id": 3, "rows": 20000}), E({"id": 4, "rows": 1})]},
@@ -809,7 +824,7 @@ def check_resume(ctx: Any, m: dict[str, Any], desc: dict[str, Any], ref: dict[st
         a["pos"] = pos
         r = ctx.driver.call("C11.resume", a)
         mevs = [c01.model_ev(e) for e in r["evs"]]
-        if mode == "seek_nwt":
+        if mode in ("seek_nwt", "resume_nwt"):
             if c01.obs_of(mevs) != got:
                 ctx.mismatch(case, c01.obs_of(mevs), got, "resumed observation vs C11.resume")
         elif mevs != c01.upto_first_error(evs):
@@ -863,8 +878,8 @@ def check_producer(ctx: Any, m: dict[str, Any], n_caps: int, n_resume: int) -> N
         if len(points) > n_resume:
             points = rng.sample(points, n_resume)
         for p, blob, minted in points:
-            mode = rng.choice(["resume_stream", "resume_stream", "seek_iter", "seek_nwt"])
-            capB = None if mode == "seek_nwt" else rng.choice([None, 1] + [c for c in caps if c is not None])
+            mode = rng.choice(["resume_stream", "resume_stream", "seek_iter", "seek_nwt", "resume_nwt"])
+            capB = None if mode in ("seek_nwt", "resume_nwt") else rng.choice([None, 1] + [c for c in caps if c is not None])
             check_resume(ctx, m, desc, ref, p, blob, minted, capB, rng.choice(codecs), rng.choice([4096, 0]), mode)
             if rng.random() < 0.3:
                 check_resume(ctx, m, desc, ref, p, blob, minted, None, None, 0, "resume_stream", wB=wA)   # the minting worker itself
